@@ -206,6 +206,7 @@ class Program:
         self.repo = Path(repo)
         self.normalise = normalise
         self.inlined: list[str] = []
+        self.normal_forms: dict[str, int] = {}
         self.src = self.repo / 'src' / self.PACKAGE
         if not self.src.is_dir():
             raise AnalysisError(f"source tree {self.src} not found")
@@ -220,39 +221,39 @@ class Program:
             loggers = {m.name: _logger_names(m.tree, m.resolve) for m in self.modules.values()}
             for fi in self.functions.values():
                 if fi.parent is None:
-                    strip_logging(fi.node, loggers.get(fi.module.name, set()))
-                    normalise_self_aliases(fi.node)
-                    normalise_display_comprehensions(fi.node)
-                    normalise_numpy_idioms(fi.node)
-                    normalise_getters(fi.node, fi.module.resolve)
-                    normalise_quantifier_polarity(fi.node)
-                    normalise_starred_maps(fi.node)
-                    normalise_match(fi.node)
-                    normalise_walrus(fi.node)
-                    normalise_expression_walrus(fi.node)
-                    normalise_get_tests(fi.node)
-                    normalise_for_else(fi.node)
-                    normalise_keys(fi.node)
-                    normalise_suppress(fi.node, fi.module.resolve)
-                    normalise_generator_functions(fi.node)
-                    normalise_unzip_loops(fi.node)
-                    normalise_dict_union(fi.node)
-                    normalise_first_match(fi.node)
-                    normalise_accumulators(fi.node)
-                    normalise_conditional_assignments(fi.node)
-                    normalise_ifexp(fi.node)
-                    normalise_self_conditional(fi.node)
-                    normalise_generator_arguments(fi.node)
+                    self._count('strip_logging', strip_logging(fi.node, loggers.get(fi.module.name, set())))
+                    self._count('normalise_self_aliases', normalise_self_aliases(fi.node))
+                    self._count('normalise_display_comprehensions', normalise_display_comprehensions(fi.node))
+                    self._count('normalise_numpy_idioms', normalise_numpy_idioms(fi.node))
+                    self._count('normalise_getters', normalise_getters(fi.node, fi.module.resolve))
+                    self._count('normalise_quantifier_polarity', normalise_quantifier_polarity(fi.node))
+                    self._count('normalise_starred_maps', normalise_starred_maps(fi.node))
+                    self._count('normalise_match', normalise_match(fi.node))
+                    self._count('normalise_walrus', normalise_walrus(fi.node))
+                    self._count('normalise_expression_walrus', normalise_expression_walrus(fi.node))
+                    self._count('normalise_get_tests', normalise_get_tests(fi.node))
+                    self._count('normalise_for_else', normalise_for_else(fi.node))
+                    self._count('normalise_keys', normalise_keys(fi.node))
+                    self._count('normalise_suppress', normalise_suppress(fi.node, fi.module.resolve))
+                    self._count('normalise_generator_functions', normalise_generator_functions(fi.node))
+                    self._count('normalise_unzip_loops', normalise_unzip_loops(fi.node))
+                    self._count('normalise_dict_union', normalise_dict_union(fi.node))
+                    self._count('normalise_first_match', normalise_first_match(fi.node))
+                    self._count('normalise_accumulators', normalise_accumulators(fi.node))
+                    self._count('normalise_conditional_assignments', normalise_conditional_assignments(fi.node))
+                    self._count('normalise_ifexp', normalise_ifexp(fi.node))
+                    self._count('normalise_self_conditional', normalise_self_conditional(fi.node))
+                    self._count('normalise_generator_arguments', normalise_generator_arguments(fi.node))
             from .inline import Inliner, load_reference, normalise_compiled_patterns, normalise_literal_loops, normalise_module_constants, normalise_small_quantifiers
             ref = load_reference()
             if ref is not None:
                 for m in self.modules.values():
-                    normalise_module_constants(m.tree, m.name, [fi.node for fi in self.functions.values() if fi.module is m and fi.parent is None], ref)
+                    self._count('normalise_module_constants', normalise_module_constants(m.tree, m.name, [fi.node for fi in self.functions.values() if fi.module is m and fi.parent is None], ref))
             for fi in self.functions.values():
                 if fi.parent is None:
-                    normalise_small_quantifiers(fi.node)
-                    normalise_compiled_patterns(fi.node)
-                    normalise_literal_loops(fi.node)
+                    self._count('normalise_small_quantifiers', normalise_small_quantifiers(fi.node))
+                    self._count('normalise_compiled_patterns', normalise_compiled_patterns(fi.node))
+                    self._count('normalise_literal_loops', normalise_literal_loops(fi.node))
             if ref is not None:
                 inl = Inliner(self, ref)
                 inl.run()
@@ -260,11 +261,15 @@ class Program:
             from .inline import normalise_comprehension_filters, normalise_conditional_returns, normalise_iteration, normalise_test_locals
             for fi in self.functions.values():
                 if fi.parent is None:
-                    normalise_iteration(fi.node)
-                    normalise_comprehension_negations(fi.node)
-                    normalise_comprehension_filters(fi.node)
-                    normalise_test_locals(fi.node)
-                    normalise_conditional_returns(fi.node)
+                    self._count('normalise_iteration', normalise_iteration(fi.node))
+                    self._count('normalise_comprehension_negations', normalise_comprehension_negations(fi.node))
+                    self._count('normalise_comprehension_filters', normalise_comprehension_filters(fi.node))
+                    self._count('normalise_test_locals', normalise_test_locals(fi.node))
+                    self._count('normalise_conditional_returns', normalise_conditional_returns(fi.node))
+
+    def _count(self, name: str, n) -> None:
+        if n:
+            self.normal_forms[name] = self.normal_forms.get(name, 0) + int(n)
 
     # ---- loading
     def _load(self) -> None:
